@@ -16,6 +16,9 @@ EXTENDS Url, Json, IOUtils
 Bases == JsonDeserialize(IOEnv.BASES_DATA).bases
 
 Flippable(ch) == ch[4] = 0 /\ (IsUnreserved(ch[1]) \/ ch[1] >= 161 \/ ch[1] = 32)
+\* reserved characters that are not delimiters of the component "may safely appear raw" there too ('#%2Froute' is '#/route')
+SafeReserved(K) == {33, 36, 39, 40, 41, 42, 44, 59, 58, 64, 47, 63, 61, 38} \ Delims(K)
+FlippableIn(K, ch) == Flippable(ch) \/ (ch[4] = 0 /\ ch[1] \in SafeReserved(K))
 HasHexLetter(ch) == \E x \in ToSet(EscSeq(Utf8Enc(ch[1]))) : x >= 65 /\ x <= 70
 FlipEsc(ch) == <<ch[1], 1 - ch[2], ch[3], ch[4]>>
 FlipHex(ch) == <<ch[1], ch[2], 1 - ch[3], ch[4]>>
@@ -97,8 +100,8 @@ Render(u) == RenderX(u, NoExtras)
 \* ------------------------------------------------------------------ the rewrites
 MapAt(t, i, F(_)) == [j \in 1..Len(t) |-> IF j = i THEN F(t[j]) ELSE t[j]]
 \* rewrites of one text: <<kind, new text>>
-TextRewrites(t) ==
-     {<<"EscapeSafe", MapAt(t, i, FlipEsc)>> : i \in {j \in 1..Len(t) : Flippable(t[j])}}
+TextRewrites(K, t) ==
+     {<<"EscapeSafe", MapAt(t, i, FlipEsc)>> : i \in {j \in 1..Len(t) : FlippableIn(K, t[j])}}
   \cup {<<"LowerHex", MapAt(t, i, FlipHex)>> : i \in {j \in 1..Len(t) : t[j][2] = 1 /\ HasHexLetter(t[j])}}
 
 Succ(u) ==
@@ -108,12 +111,12 @@ Succ(u) ==
   \cup {[kind |-> "TogglePunycode", u |-> [u EXCEPT !.pu = IF i \in u.pu THEN u.pu \ {i} ELSE u.pu \cup {i}]]
           : i \in {j \in 1..Len(B.host) : IdnaRow(B.host[j]) # 0}}
   \cup (IF B.port = <<>> THEN {[kind |-> "ToggleDefaultPort", u |-> [u EXCEPT !.dp = ~u.dp]]} ELSE {})
-  \cup {[kind |-> r[1], u |-> [u EXCEPT !.user = r[2]]] : r \in TextRewrites(u.user)}
-  \cup {[kind |-> r[1], u |-> [u EXCEPT !.pass = r[2]]] : r \in TextRewrites(u.pass)}
-  \cup UNION {{[kind |-> r[1], u |-> [u EXCEPT !.segs[i] = r[2]]] : r \in TextRewrites(u.segs[i])} : i \in 1..Len(u.segs)}
-  \cup UNION {{[kind |-> r[1], u |-> [u EXCEPT !.items[i] = <<r[2], u.items[i][2], u.items[i][3]>>]] : r \in TextRewrites(u.items[i][1])} : i \in 1..Len(u.items)}
-  \cup UNION {{[kind |-> r[1], u |-> [u EXCEPT !.items[i] = <<u.items[i][1], u.items[i][2], r[2]>>]] : r \in TextRewrites(u.items[i][3])} : i \in 1..Len(u.items)}
-  \cup {[kind |-> r[1], u |-> [u EXCEPT !.frag = r[2]]] : r \in TextRewrites(u.frag)}
+  \cup {[kind |-> r[1], u |-> [u EXCEPT !.user = r[2]]] : r \in TextRewrites("auth", u.user)}
+  \cup {[kind |-> r[1], u |-> [u EXCEPT !.pass = r[2]]] : r \in TextRewrites("auth", u.pass)}
+  \cup UNION {{[kind |-> r[1], u |-> [u EXCEPT !.segs[i] = r[2]]] : r \in TextRewrites("path", u.segs[i])} : i \in 1..Len(u.segs)}
+  \cup UNION {{[kind |-> r[1], u |-> [u EXCEPT !.items[i] = <<r[2], u.items[i][2], u.items[i][3]>>]] : r \in TextRewrites("qitem", u.items[i][1])} : i \in 1..Len(u.items)}
+  \cup UNION {{[kind |-> r[1], u |-> [u EXCEPT !.items[i] = <<u.items[i][1], u.items[i][2], r[2]>>]] : r \in TextRewrites("qitem", u.items[i][3])} : i \in 1..Len(u.items)}
+  \cup {[kind |-> r[1], u |-> [u EXCEPT !.frag = r[2]]] : r \in TextRewrites("frag", u.frag)}
   \cup {[kind |-> "PathSegments", u |-> [u EXCEPT !.dots[i] = m]] : i \in 1..Len(u.segs), m \in {0, 1, 2, 3}}
   \cup (IF u.segs = <<>> THEN {[kind |-> "PathSegments", u |-> [u EXCEPT !.root = m]] : m \in {0, 1, 2, 3, 4} \ {u.root}} ELSE {})
   \cup (IF u.items = <<>> THEN {[kind |-> "EmptyQuery", u |-> [u EXCEPT !.eq = ~u.eq]]} ELSE {})
